@@ -1079,7 +1079,9 @@ impl Interp {
                 let cfg = self.w.vamm_config(v);
                 let (mut me, mut fu) = (None, None);
                 if what % 2 == 0 {
-                    fu = Some(if cfg.insurance_fund == self.w.fund { crate::world::RETIRED_FUND.to_string() } else { self.w.fund.to_string() });
+                    // away from the deployment's fund: to an outside address or to the foreign registry that also lists this vAMM
+                    let away = if what % 4 == 0 { crate::world::RETIRED_FUND.to_string() } else { self.w.fund2.to_string() };
+                    fu = Some(if cfg.insurance_fund == self.w.fund { away } else { self.w.fund.to_string() });
                 } else {
                     me = Some(if cfg.margin_engine == self.w.engine { crate::world::ENGINE_TYPO.to_string() } else { self.w.engine.to_string() });
                 }
